@@ -711,4 +711,322 @@ theorem due_init (g : Graph) (ncls : Nat) (store : List (String × List (String 
   intro v u _ _ htv _
   rw [init_pc] at htv; cases htv
 
+
+/-! ## the bump counters are bounded
+
+`max_concurrent_tries` of copy `n` is raised in the back-off branch only, i.e. when `n` is occupied: the number of DIFFERENT
+workers holding a `started` mark in the scope is at least the threshold `max(mctOf n, 1)`; after the first bump the threshold
+is `max_concurrent_tries₀ + bump` (`max_concurrent_tries₀` = the configured value or 0).  Marks belong to real workers, so a
+copy is bumped at most `max(1, |workers| + 1 - max_concurrent_tries₀)` times. -/
+
+/-- the bound on the bump counter of copy `n` -/
+def bumpCap (g : Graph) (n : Nat) : Nat := max 1 ((g.workers.length : Int) + 1 - (g.node n).mct.getD 0).toNat
+
+def BCap (g : Graph) (s : State) : Prop := ∀ i, (s.nd i).bump ≤ bumpCap g i
+
+/-- every `started` mark belongs to a real worker other than `w` -/
+def MarksOK (g : Graph) (w : Nat) (s : State) : Prop := ∀ i v, (s.nd i).started = some v → v ≠ w ∧ v < g.workers.length
+
+theorem BCap.calm {g : Graph} {w : Nat} {s s' : State} (h : BCap g s) (a : Calm w s s') : BCap g s' :=
+  fun i => by rw [a.bump i]; exact h i
+
+theorem marksOK_of_pinvO {g : Graph} {s : State} {w : Nat} (ho : PInvO g s w) : MarksOK g w s := by
+  intro i v hs
+  obtain ⟨hv, hpc⟩ := ho.markPc i v hs
+  refine ⟨hv, ?_⟩
+  rw [← ho.wlen]
+  apply real_of_runner
+  rcases hpc with h | h
+  · left; rw [h]; simp
+  · right; exact h
+
+theorem nodup_length_le (W : Nat) (l : List Nat) (hl : l.Nodup) (h : ∀ x ∈ l, x < W) : l.length ≤ W := by
+  induction W generalizing l with
+  | zero =>
+    cases l with
+    | nil => simp
+    | cons a r => have := h a List.mem_cons_self; omega
+  | succ W ih =>
+    by_cases hW : W ∈ l
+    · have := ih (l.erase W) (hl.erase W) (fun x hx => by
+        have hx' := (hl.mem_erase_iff).mp hx
+        have := h x hx'.2
+        have := hx'.1
+        omega)
+      rw [List.length_erase_of_mem hW] at this
+      omega
+    · exact Nat.le_succ_of_le (ih l hl (fun x hx => by
+        have := h x hx
+        have : x ≠ W := fun e => hW (e ▸ hx)
+        omega))
+
+/-- an occupied copy that has been bumped before: its threshold is at most the number of workers -/
+theorem occupied_bump {g gv : Graph} (hgv : SameNodes gv g) (s : State) (n w : Nat) (hm : MarksOK g w s)
+    (hocc : isOccupied gv s n w = true) (hb : 0 < (s.nd n).bump) :
+    (g.node n).mct.getD 0 + ((s.nd n).bump : Int) ≤ g.workers.length := by
+  have hset : ∀ v ∈ sharedStarted gv s n, v ≠ w ∧ v < g.workers.length := by
+    intro v hv
+    unfold sharedStarted at hv
+    rw [mem_dedupNat, List.mem_filterMap] at hv
+    obtain ⟨i, _, hi⟩ := hv
+    exact hm i v hi
+  have hlen : (sharedStarted gv s n).length ≤ g.workers.length :=
+    nodup_length_le _ _ (nodup_sharedStarted gv s n) (fun v hv => (hset v hv).2)
+  have hthr : mctOf gv s n = (g.node n).mct.getD 0 + ((s.nd n).bump : Int) := by
+    unfold mctOf
+    dsimp only
+    rw [hgv.mct']
+    have : ((s.nd n).bump : Int) > 0 := by omega
+    rw [if_pos this]
+  unfold isOccupied isStarted at hocc
+  rw [hthr] at hocc
+  split at hocc
+  · cases hocc
+  · unfold scopeCount at hocc
+    have hne : (max ((g.node n).mct.getD 0 + ((s.nd n).bump : Int)) 1 == -1) = false := by
+      have : max ((g.node n).mct.getD 0 + ((s.nd n).bump : Int)) 1 ≠ -1 := by omega
+      simpa using this
+    cases hsh : (gv.node n).shape with
+    | own =>
+      rw [hsh] at hocc
+      have : w ∈ sharedStarted gv s n := by simpa using hocc
+      exact absurd rfl (hset w this).1
+    | swarm =>
+      rw [hsh] at hocc
+      simp only [hne, Bool.false_eq_true, if_false, decide_eq_true_eq] at hocc
+      have := List.length_filter_le (fun v => (gv.worker v).swarm == (gv.worker w).swarm) (sharedStarted gv s n)
+      omega
+    | global =>
+      rw [hsh] at hocc
+      simp only [hne, Bool.false_eq_true, if_false, decide_eq_true_eq] at hocc
+      omega
+
+theorem bump_succ_le {g gv : Graph} (hgv : SameNodes gv g) (s : State) (n w : Nat) (hm : MarksOK g w s)
+    (hocc : isOccupied gv s n w = true) : (s.nd n).bump + 1 ≤ bumpCap g n := by
+  unfold bumpCap
+  by_cases hb : 0 < (s.nd n).bump
+  · have := occupied_bump hgv s n w hm hocc hb
+    omega
+  · omega
+
+/-- one iteration keeps the bump counters within their bounds -/
+theorem iter_bcap {g gv : Graph} (hgv : SameNodes gv g) (s : State) (w : Nat) (hm : MarksOK g w s) (hc : BCap g s) :
+    BCap g (iter gv s w).1 := by
+  unfold iter
+  dsimp only
+  split
+  · split
+    · exact hc.calm (calm_setWd w s w _ (fun _ => rfl) (fun _ => rfl))
+    · exact hc
+  · cases hl : (s.wd w).path.getLast? with
+    | none => exact hc
+    | some next =>
+      dsimp only
+      split
+      · cases hp : pickChild gv s next w with
+        | none => exact hc
+        | some r => obtain ⟨x, s2⟩ := r; exact hc.calm (calm_pickChild w gv s next w x s2 hp)
+      · split
+        · -- the bounce: the only place where a bump counter is written
+          rename_i hocc
+          intro i
+          rw [nd_setWd]
+          by_cases hcn : (s.wd w).occAt.contains next = true
+          · by_cases hov : (s.wd w).occWait >
+                Float.ofInt (((gv.node next).timeout : Int) * max ((gv.node next).maxTries.getD 1) 1)
+            · simp only [hcn, if_true, hov, nd_setWd]
+              rcases nd_setNd_cases s next (fun d => { d with bump := d.bump + 1 }) i with h | ⟨h1, _, h⟩
+              · rw [h]; exact hc i
+              · rw [h, h1]
+                exact bump_succ_le hgv s next w hm hocc
+            · simp only [hcn, if_true, hov, if_false, nd_setWd]
+              exact hc i
+          · simp only [hcn, Bool.false_eq_true, if_false, nd_setWd]
+            exact hc i
+        · split
+          · split
+            · exact hc.calm (calm_traverseNode w gv s w next _ .up)
+            · cases hp : pickParent gv s next w with
+              | none => exact hc
+              | some r => obtain ⟨x, s2⟩ := r; exact hc.calm (calm_pickParent w gv s next w x s2 hp)
+          · split
+            · split
+              · cases hp : pickParent gv s next w with
+                | none => exact hc
+                | some r => obtain ⟨x, s2⟩ := r; exact hc.calm (calm_pickParent w gv s next w x s2 hp)
+              · exact hc.calm (calm_traverseNode w gv s w next _ .down)
+            · exact hc
+
+theorem iterL_bcap (g : Graph) (s : State) (w : Nat) (hm : MarksOK g w s) (hc : BCap g s) : BCap g (iterL g s w).1 := by
+  unfold iterL
+  split
+  · exact iter_bcap (sameNodes_vis g s) s w hm hc
+  · dsimp only
+    have h0 := calm_prepare w g s w
+    have hn := (prepare_frame g s w).1
+    refine iter_bcap (sameNodes_vis g (prepare g s w)) (prepare g s w) w ?_ (hc.calm h0)
+    intro i v hs
+    rw [nd_of_nodes_eq' hn] at hs
+    exact hm i v hs
+
+theorem runLoop_bcap (g : Graph) (hsym : EdgeSym g) (w fuel : Nat) (s : State) (evs : List Event) (ho : PInvO g s w)
+    (hp : PathOK (Adj (vis g s)) (fun x => relevant g w x = true) g.root (s.wd w).path)
+    (hw : w < s.workers.length) (hc : BCap g s) : BCap g (runLoop g w fuel s evs).1 := by
+  induction fuel generalizing s evs with
+  | zero => exact hc
+  | succ fuel ih =>
+    unfold runLoop
+    dsimp only
+    have e0 : Eff w none s (s.setWd w (fun d => { d with pc := .loop })) := eff_setWd w none s _
+    have c0 : Calm w s (s.setWd w (fun d => { d with pc := .loop })) := calm_setWd w s w _ (fun _ => rfl) (fun _ => rfl)
+    have hwd := wd_setWd_eq s w (fun d => { d with pc := .loop }) hw
+    have ho0 : PInvO g (s.setWd w (fun d => { d with pc := .loop })) w :=
+      ho.transfer e0.workersLen (fun x hx => by rw [← e0.hidden]; exact hx)
+        (fun v hv => by rw [e0.others v hv]; exact ⟨rfl, rfl⟩) (fun i => Or.inl rfl)
+    have hp0 : PathOK (Adj (vis g (s.setWd w (fun d => { d with pc := .loop })))) (fun x => relevant g w x = true) g.root
+        ((s.setWd w (fun d => { d with pc := .loop })).wd w).path := by
+      rw [hwd]
+      exact hp.mono (fun a b => adj_vis_mono g s _ (fun x hx => by rw [← e0.hidden]; exact hx) a b)
+    have hw0 : w < (s.setWd w (fun d => { d with pc := .loop })).workers.length := by rw [e0.workersLen]; exact hw
+    obtain ⟨hl, hcont, _, _⟩ := iterL_inv g hsym _ w ho0 hp0 (by rw [hwd]; rfl)
+    have hit := iterL_bcap g _ w (marksOK_of_pinvO ho0) (hc.calm c0)
+    split
+    · next s1 e heq =>
+      rw [heq] at hcont hl hit
+      obtain ⟨a, b, _⟩ := hcont rfl
+      exact ih s1 _ a b (by rw [hl]; exact hw0) hit
+    · next s1 e heq =>
+      rw [heq] at hit
+      exact hit
+    · next s1 e heq =>
+      rw [heq] at hit
+      exact hit
+    · next s1 e what heq =>
+      rw [heq] at hit
+      intro i
+      rw [nd_setWd]
+      exact hit i
+
+theorem continueAfter_bcap (g : Graph) (hsym : EdgeSym g) (w n : Nat) (phase : Phase) (dir : Dir) (fuel : Nat)
+    (s : State) (ok : Bool) (evs : List Event) (h : PInv g s) (hpcw : (s.wd w).pc.node? = some n) (hc : BCap g s) :
+    BCap g (resumeTest.continueAfter g w n phase dir fuel s ok evs).1 := by
+  obtain ⟨hid, hlast, hlen⟩ := h.testOwn w n hpcw
+  have hw : w < s.workers.length := lt_of_path_ne_nil s w (by intro h0; rw [h0] at hlen; simp at hlen)
+  unfold resumeTest.continueAfter
+  dsimp only
+  split
+  · exact hc.calm (calm_startTest w g s n w .main dir)
+  · have q2 : Qt w none s (if (phase == Phase.pre) = true then
+          s.setNd n (fun d => { d with results := d.results ++ (s.wd w).preResults.drop d.results.length })
+        else s) := by
+      split
+      · refine qt_setNd w none s n _ ?_
+        intro d; exact Or.inl rfl
+      · exact Qt.refl _ _ _
+    have c2 : Calm w s (if (phase == Phase.pre) = true then
+          s.setNd n (fun d => { d with results := d.results ++ (s.wd w).preResults.drop d.results.length })
+        else s) := by
+      split
+      · exact calm_setNd w s n _ (fun _ => rfl)
+      · exact Calm.refl w s
+    obtain ⟨hoF, hpF, hlF, hnF, hwF, _⟩ := h.finish hpcw q2
+    have cF := c2.trans (calm_finishTraverse w _ n w)
+    generalize hsF : finishTraverse (if (phase == Phase.pre) = true then
+          s.setNd n (fun d => { d with results := d.results ++ (s.wd w).preResults.drop d.results.length })
+        else s) n w = sF at hoF hpF hlF hnF hwF cF
+    obtain ⟨a, b, c, _⟩ := afterTraverse_ok (vis g sF) (edgeSym_vis g sF hsym) sF w n
+      ((s.wd w).path.getD ((s.wd w).path.length - 2) 0) dir hwF hlF hnF
+    have cA := cF.trans (calm_afterTraverse w (vis g sF) sF w n ((s.wd w).path.getD ((s.wd w).path.length - 2) 0) dir)
+    generalize afterTraverse (vis g sF) sF w n ((s.wd w).path.getD ((s.wd w).path.length - 2) 0) dir = r at a b c cA
+    have hhid : ∀ x, x ∈ r.1.hidden → x ∈ sF.hidden := by intro x hx; rw [← a.hidden]; exact hx
+    have ho' : PInvO g r.1 w := hoF.transfer a.workersLen hhid (fun v hv => by rw [a.others v hv]; exact ⟨rfl, rfl⟩)
+      (fun i => by
+        rcases a.marks i with h' | h' | h'
+        · exact Or.inl h'
+        · exact Or.inr h'
+        · exact absurd h'.1 (by simp))
+    have hp' := pathOK_eff g sF r.1 w _ _ hhid hpF c
+    have hw' : w < r.1.workers.length := by rw [a.workersLen]; exact hwF
+    obtain ⟨s1, e2, fl⟩ := r
+    have loopCase : ∀ evs', BCap g (runLoop g w fuel s1 evs').1 :=
+      fun evs' => runLoop_bcap g hsym w fuel s1 evs' ho' hp' hw' (hc.calm cA)
+    cases fl with
+    | raise what =>
+      dsimp only
+      intro i
+      rw [nd_setWd]
+      exact (hc.calm cA) i
+    | cont => exact loopCase _
+    | suspend => exact loopCase _
+    | exit => exact loopCase _
+
+theorem resumeTest_bcap (g : Graph) (hsym : EdgeSym g) (s : State) (w n : Nat) (phase : Phase) (dir : Dir) (uid : String)
+    (tag wait : Nat) (out : Outcome) (fuel : Nat) (h : PInv g s) (hpcw : (s.wd w).pc.node? = some n) (hc : BCap g s) :
+    BCap g (resumeTest g s w n phase dir uid tag wait out fuel).1 := by
+  rw [resumeTest_eq]
+  obtain ⟨r1, r2, r3⟩ := reportOutcome_frame g s w n phase uid wait out
+  have bA : BookOnly s (reportOutcome g s w n phase uid wait out).1 :=
+    ⟨by rw [r2], r3, fun v => by unfold State.wd; rw [r2]; exact ⟨rfl, rfl⟩, fun i => by unfold State.nd; rw [r1]⟩
+  have hA := h.bookOnly bA
+  have cA : Calm w s (reportOutcome g s w n phase uid wait out).1 := Calm.quiet r1 r2
+  have hpcA : ((reportOutcome g s w n phase uid wait out).1.wd w).pc.node? = some n := by rw [(bA.wd w).2]; exact hpcw
+  have hcA := hc.calm cA
+  generalize (reportOutcome g s w n phase uid wait out).1 = sa at hA hpcA bA cA hcA
+  have waitCase : ∀ k, BCap g (sa.setWd w (fun d => { d with pc := .test n phase dir uid tag k })) := by
+    intro k i
+    rw [nd_setWd]
+    exact hcA i
+  split
+  · next st0 dur _ =>
+    have bB := recordResult_frame sa w n phase (if (phase == Phase.pre) = true then (s.wd w).preName else (g.node n).name) uid tag st0 dur
+    have cB := calm_recordResult w sa w n phase (if (phase == Phase.pre) = true then (s.wd w).preName else (g.node n).name) uid tag st0 dur
+    exact continueAfter_bcap g hsym w n phase dir fuel _
+      (recordResult sa w n phase (if (phase == Phase.pre) = true then (s.wd w).preName else (g.node n).name) uid tag st0 dur).2
+      (reportOutcome g s w n phase uid wait out).2
+      (hA.bookOnly bB) (by rw [(bB.wd w).2]; exact hpcA) (hcA.calm cB)
+  · split
+    · exact waitCase _
+    · split
+      · exact waitCase _
+      · exact continueAfter_bcap g hsym w n phase dir fuel sa false
+          (reportOutcome g s w n phase uid wait out).2 hA hpcA hcA
+
+/-- **a step keeps every bump counter within `bumpCap`** -/
+theorem resume_bcap (g : Graph) (hsym : EdgeSym g) (s : State) (w : Nat) (out : Outcome) (fuel : Nat)
+    (hw : w < g.workers.length) (h : PInv g s) (hc : BCap g s) : BCap g (resume g s w out fuel).1 := by
+  have hws : w < s.workers.length := by rw [h.wlen]; exact hw
+  have loopCase : (s.wd w).pc.node? = none → (s.wd w).pc ≠ .failed → (s.wd w).pc ≠ .done →
+      BCap g (runLoop g w fuel s []).1 := by
+    intro h2 h3 h4
+    refine runLoop_bcap g hsym w fuel s [] (h.toO h2 h3) ?_ hws hc
+    rcases h.path w hws with h' | h'
+    · exact absurd h'.2 h4
+    · exact h'
+  unfold resume
+  split
+  · next heq => exact loopCase (by rw [heq]; rfl) (by rw [heq]; simp) (by rw [heq]; simp)
+  · next heq => exact loopCase (by rw [heq]; rfl) (by rw [heq]; simp) (by rw [heq]; simp)
+  · next n phase dir uid tag wait heq =>
+    exact resumeTest_bcap g hsym s w n phase dir uid tag wait out fuel h (by rw [heq]; rfl) hc
+  · exact hc
+  · exact hc
+
+theorem bcap_init (g : Graph) (ncls : Nat) (store : List (String × List (String × String))) (hidden : List Nat) :
+    BCap g (initState g ncls store hidden) := by
+  intro i
+  have : ((initState g ncls store hidden).nd i).bump = 0 := by
+    unfold initState State.nd
+    simp only [List.getD_eq_getElem?_getD, List.getElem?_map]
+    cases g.nodes[i]? <;> rfl
+  rw [this]
+  exact Nat.zero_le _
+
+/-- **in every reachable state every bump counter is within `bumpCap`** (any graph with edges recorded at both ends, lazily
+expanded ones included; steps of real workers with positive fuel) -/
+theorem reachable_bcap {g : Graph} (hsym : EdgeSym g) {ncls : Nat} {store : List (String × List (String × String))}
+    {s : State} (h : ReachableF g ncls store s) : BCap g s := by
+  induction h with
+  | init hidden => exact bcap_init g ncls store hidden
+  | step s w out fuel hr hw _ ih => exact resume_bcap g hsym s w out fuel hw (hr.pinv hsym) ih
+
 end I2N.Trav.Fair2
